@@ -57,7 +57,7 @@ async def _run(case):
     closed_ops = []
     probes = []
     healed_mid = []
-    flags = {"reset_overtook_data": False, "reset_hit_reused_id": False}
+    flags = {"reset_overtook_data": False, "reset_hit_reused_id": False, "reconfig_discarded": False}
     freed = {0: set(), 1: set()}
     ranks = {0: {}, 1: {}}
     try:
@@ -72,6 +72,10 @@ async def _run(case):
                 from aiortc import rtcsctptransport as S
                 for ch in S.parse_packet(data)[3]:
                     if isinstance(ch, S.ReconfigChunk):
+                        if sim.eps[dst]._association_state != S.RTCSctpTransport.State.ESTABLISHED:
+                            # the receiver is not established yet (e.g. its COOKIE ACK was lost) and discards the
+                            # RE-CONFIG; as it is never retransmitted (K4) this is a lost RE-CONFIG
+                            flags["reconfig_discarded"] = True
                         for ptype, pdata in ch.params:
                             if ptype == 13:
                                 prm = S.StreamResetOutgoingParam.parse(pdata)
@@ -239,6 +243,7 @@ async def _run(case):
             "healed_mid": healed_mid,
             "reset_overtook_data": flags["reset_overtook_data"],
             "reset_hit_reused_id": flags["reset_hit_reused_id"],
+            "reconfig_discarded": flags["reconfig_discarded"],
             "ranks": [[ranks[ep].get(i, []) for i in range(len(sim.channels[ep]))] for ep in (0, 1)],
             "reconfig_pending": [bool(sim.eps[e]._reconfig_request) or bool(sim.eps[e]._reconfig_queue) for e in (0, 1)],
         })
